@@ -76,6 +76,11 @@ func (k Keeper) GetUserDappBonds(ctx sdk.Context, name string) []types.UserDappB
 	for ; it.Valid(); it.Next() {
 		bond := types.UserDappBond{}
 		k.cdc.MustUnmarshal(it.Value(), &bond)
+		// the key is prefix+dappName+user without a separator: skip records of other dapps
+		// whose name merely starts with (or whose key continues) this name
+		if bond.DappName != name {
+			continue
+		}
 		bondlist = append(bondlist, bond)
 	}
 	return bondlist
